@@ -190,6 +190,18 @@ func knownClass(q qref.Query, cfgs []Config, lay Layout) string {
 		return "B2"
 	}
 
+	// ---- K (finding C09-multicall-last-across-memtable-and-file): >= 2 calls on different fields incl. first/last, served from
+	// statistics (no hint, filter, bucket): with rows in the memtable and in files the file's first/last value is kept
+	if agg && kcHasFirstLast(q) && !q.Exact && q.Interval == 0 && q.Field == nil {
+		fields := map[string]bool{}
+		for _, c := range q.Sel {
+			fields[c.Field] = true
+		}
+		if len(fields) >= 2 {
+			return "K"
+		}
+	}
+
 	// ---- J: >= 2 distinct calls one of which is first/last + a group that merges several series (not GROUP BY *): with
 	// several partitions the partial results are merged without their point times and the value of the wrong series is kept
 	if agg && kcHasFirstLast(q) && !q.GroupAll {
